@@ -84,7 +84,8 @@ def run(chk, tier):
     for k in range(0, len(events), B):
         res, verdicts = core.validate_batch("Trace_FitDtype.tla", "Trace_FitDtype.cfg", events[k:k + B])
         chk.add_tlc("L3 trace validation", res)
-        for t, v in verdicts.items():
+        for t, vs in verdicts.items():
+            v = vs[0]
             mx, mn, name = raw[t]
             if v == "out-of-domain":
                 continue
@@ -119,5 +120,5 @@ def replay(chk, path):
     res, verdicts = core.validate_batch("Trace_FitDtype.tla", "Trace_FitDtype.cfg", ev, workers=1)
     chk.add_tlc("replay", res)
     chk.traces = 1
-    if verdicts[1] not in ("ok", "out-of-domain"):
-        chk.violation("fit_dtype:%s" % verdicts[1], "fit_dtype(%d,%d) -> %s" % (r["max"], r["min"], name), r)
+    if verdicts[1][0] not in ("ok", "out-of-domain"):
+        chk.violation("fit_dtype:%s" % verdicts[1][0], "fit_dtype(%d,%d) -> %s" % (r["max"], r["min"], name), r)
